@@ -137,7 +137,7 @@ theorem rbStage_threshold (cfg : Config) (t : Nat) :
 
 theorem preConf_threshold_irrelevant (cfg : Config) (t : Nat) (s : Str) :
     preConf O { cfg with threshold := t } s = preConf O cfg s := by
-  unfold preConf; simp only [rbStage_threshold]
+  unfold preConf pc9 pc8 pc7 pc6 pc5 pc4 pc3 pc2; simp only [rbStage_threshold]
 
 theorem runRow_threshold (cfg : Config) (t : Nat) (s : Str) :
     runRow O { cfg with threshold := t } s = confStage O t (preConf O cfg s) := by
